@@ -182,7 +182,18 @@ def default_agreement(ctx, funcs, rule='SIB-DEFAULTS'):
                 a, b = wd[p], cd[q]
                 if not (isinstance(a, ast.Constant) and isinstance(b, ast.Constant)):
                     continue
-                if a.value is None or b.value is None:
+                if a.value is None:
+                    continue
+                if b.value is None:
+                    # the callee's None means "keep what is configured"; a
+                    # wrapper that defaults to a concrete switch value forces it
+                    if isinstance(a.value, bool) and fi.node.name != '__init__':
+                        n += 1
+                        ctx.violation(rule, f"{fi.qualname}({p}={a.value!r}) agrees with {cf.qualname}({q}=None)",
+                                      f"{fi.qualname} defaults `{p}` to {a.value!r} and hands it to {cf.qualname}, where the default "
+                                      f"None means 'use what the object is configured with': a plain call of the wrapper now "
+                                      f"overrides the configured setting", key=f"{rule}|{fi.qualname}|{cf.node.name}|{p}",
+                                      where=fi.loc)
                     continue
                 n += 1
                 if a.value != b.value and (isinstance(a.value, str) or isinstance(b.value, str)):
@@ -214,6 +225,7 @@ def check_all(ctx, module_suffixes=None, funcs=None, rules=('DEADPARAM', 'FORWAR
     if 'FORWARD' in rules:
         out['delegates'] = delegate_names(ctx, funcs)
     out['stores'] = dead_stores(ctx, funcs) + overwritten_attr_stores(ctx, funcs)
+    out['returns'] = mixed_returns(ctx, funcs)
     ctx.ok('FORWARD', f"option forwarding in {len(funcs)} functions",
            f"{out.get('params', 0)} parameters examined for use, {out.get('forwarded', 0)} arguments handed "
            f"down under a parameter name, {out.get('defaults', 0)} default pairs compared, "
@@ -346,4 +358,34 @@ def overwritten_attr_stores(ctx, funcs, rule='DEADSTORE'):
                                       f"it: what was taken over there (e.g. the flags of the parent) is lost",
                                       key=f"{rule}|{fi.qualname}|self.{attr}|overwritten", where=common.loc(fi, st))
                         break
+    return n
+
+
+def mixed_returns(ctx, funcs, rule='RETURNS'):
+    """
+    A function that returns a value on one path and falls off its end (or has
+    a bare `return`) on another hands None to callers that use the result -
+    typically a `return` that slipped under an `if`.  Empty baseline on the
+    pinned tree (every value-returning function returns on all paths).
+    """
+    from .. import flow as _flow
+    n = 0
+    for fi in funcs:
+        rets = [r for r in walk_local(fi.node) if isinstance(r, ast.Return)]
+        valued = [r for r in rets if r.value is not None and not (isinstance(r.value, ast.Constant) and r.value.value is None)]
+        if not valued:
+            continue
+        n += 1
+        try:
+            cfg, _ = _flow.analyse(fi.node)
+        except Exception:
+            continue
+        fall = [p for p, _l in cfg.exit.pred if not (p.kind == 'stmt' and isinstance(p.ast, (ast.Return, ast.Raise)))]
+        bare = [r for r in rets if r.value is None]
+        if fall or bare:
+            site = bare[0] if bare else valued[-1]
+            ctx.violation(rule, f"{fi.qualname} returns its result on every path",
+                          f"`{norm(valued[-1])[:50]}` is not reached on every path: on the other one the function "
+                          f"{'has a bare return' if bare else 'falls off its end'} and the caller gets None instead of the result",
+                          key=f"{rule}|{fi.qualname}|mixed", where=common.loc(fi, site))
     return n
